@@ -365,6 +365,10 @@ func sameState(s *Server, m *rmodel) bool {
 		if !ok {
 			return false
 		}
+		// representation invariant: a record carries the name it is stored under (SetRecord stores by that field)
+		if rec.Key != name {
+			return false
+		}
 		switch k.typ {
 		case tStr:
 			v, isStr := rec.Data.(string)
